@@ -289,3 +289,30 @@ func VH_C08_nestedSeq() {
 	vAssert(err == nil, "c-mutually-dependent-items-complete")
 	vCover("sequential-batch-nested-in-a-concurrent-one")
 }
+
+// work conservation: with two workers, item 0 blocks until the LAST item has started while the items
+// in between return at once - the worker that becomes free picks the last item up, so the two
+// mutually dependent items (first and last) meet
+func VH_C08_firstAndLast() {
+	vUnwind(24)
+	n := 3 + vChoice("extra", vParam("extra", 2))
+	lastStarted := false
+	m := &bMon{}
+	m.n, m.c, m.ctx = n, 2, vNewCtx()
+	m.firstFail, m.cancelAt = -1, -1
+	m.stop = vNondet[bool]("stop")
+	exec := func(ctx context.Context, item Result) (Result, error) {
+		k := bIndex(item)
+		if k == n-1 {
+			vMonC(1, func() { lastStarted = true })
+		}
+		if k == 0 {
+			vBlockUntil(func() bool { return lastStarted })
+		}
+		return item, nil
+	}
+	b := bNode(m, exec)
+	_, err := Run(m.ctx, b, NewSharedStore())
+	vAssert(err == nil && m.posts == 1, "c-mutually-dependent-items-complete")
+	vCover("first-and-last-meet")
+}
